@@ -359,17 +359,19 @@ abbrev HC : Cello.Heap.Cfg := Cello.Heap.Cfg.current
 
 /-- the facts about the generated tables the translation `toObj` relies on: the container types declare Mark, the
     pointer-carrying plain types (Ref, Box, the workload's Tracked and KCell) neither are leaf types nor declare Mark, the
-    conservative scan includes the last word, thread-local storage is traced through the callback -/
+    conservative scan includes the last word, thread-local storage is traced through the callback, and `Thread_Mark` presents
+    the table of every Thread object the marker reaches — not only the marking thread's own (the guard of the withdrawn
+    repair 80c795e makes this conjunct false) -/
 theorem current_tables :
     (∀ ty ∈ ["Array", "List", "Table", "Tree", "Tuple", "Thread"], HC.hasMark ty = true ∧ HC.isLeaf ty = false) ∧
     (∀ ty ∈ ["Ref", "Box", "Tracked", "KCell"], HC.hasMark ty = false ∧ HC.isLeaf ty = false) ∧
-    HC.tlsCallback = true ∧ HC.scanInclusive = true := by
+    HC.tlsCallback = true ∧ HC.scanInclusive = true ∧ HC.foreignTls = true := by
   decide
 
 theorem fields_plain (ty : String) (ws : List Nat) (h : ty ∈ ["Ref", "Box", "Tracked", "KCell"]) :
     Cello.Heap.fields HC (.raw ty ws) = ws := by
   have := current_tables.2.1 ty h
-  simp [Cello.Heap.fields, Cello.Heap.scanWords, this.1, this.2, current_tables.2.2.2]
+  simp [Cello.Heap.fields, Cello.Heap.scanWords, this.1, this.2, current_tables.2.2.2.1]
 
 theorem fields_cont (ty : String) (es : List Cello.Heap.Obj) (h : ty ∈ ["Array", "List", "Table", "Tree", "Tuple", "Thread"]) :
     Cello.Heap.fields HC (.cont ty es) = Cello.Heap.fieldsL HC es := by
@@ -454,7 +456,7 @@ theorem refs_fields (c : Cell) (j : Nat) (hj : j ∈ c.refs) : addr j ∈ Cello.
     have ht := current_tables
     have h1 := ht.1 "Thread" (by simp)
     have h2 := ht.1 "Table" (by simp)
-    simp only [toObj, Cello.Heap.fields, Cello.Heap.viaMark, h1.1, h1.2, h2.1, if_true, Bool.false_eq_true, if_false]
+    simp only [toObj, Cello.Heap.fields, Cello.Heap.viaMark, h1.1, h1.2, h2.1, ht.2.2.2.2, if_true, Bool.false_eq_true, if_false]
     refine fieldsL_mem _ (.raw "Ref" [addr j]) ?_ (addr j) (by rw [fields_plain _ _ (by simp)]; simp)
     exact List.mem_flatMap.mpr ⟨e, hm, by simp [hj2]⟩
 
